@@ -215,6 +215,9 @@ where
         }
 
         let start_time = Instant::now();
+        // A configured seed must keep determining every later call: the generator is handed back
+        // on every return path.
+        let seeded = self.rng.is_some();
         let mut rng = self
             .rng
             .take()
@@ -224,6 +227,9 @@ where
         loop {
             // 1. Check for timeout
             if start_time.elapsed() > timeout {
+                if seeded {
+                    self.rng = Some(rng);
+                }
                 return Err(PlanningError::Timeout);
             }
 
@@ -339,6 +345,9 @@ where
             // 9. Check if the new node satisfies the goal
             if goal.is_satisfied(&q_new) {
                 println!("Solution found after {} nodes.", self.tree.len());
+                if seeded {
+                    self.rng = Some(rng);
+                }
                 return Ok(self.reconstruct_path(self.tree.len() - 1));
             }
         }
